@@ -79,7 +79,7 @@ def add_dot_entry(L, rng, workdirs, tag, sp=None):
 
 
 def add_entry(L, rng, workdirs, a, tag, used, kinds=None, spellings=None,
-              name=None, vol=None, name_kw=None):
+              name=None, vol=None, name_kw=None, deep=None):
     """one ordinary user entry + the spelling of the argument naming it"""
     vols = list(L.mounts)
     cwd = L.cwd
@@ -88,6 +88,19 @@ def add_entry(L, rng, workdirs, a, tag, used, kinds=None, spellings=None,
     if rng.random() < 0.3:
         d = d + '/sub' + str(a)
         L.add({'p': d, 't': 'd', 'm': 0o755})
+    if deep is None:
+        deep = rng.random() < 0.03
+    if deep:
+        # a legal but very long original location (below PATH_MAX) whose
+        # percent-encoded form is several times longer: 6-12 levels of
+        # 240-byte names that need escaping
+        unit = rng.choice(['\u4e2d', '\u00e9x', 'a b', '%41', '\u00fc\n'])
+        for lvl in range(rng.randint(6, 12)):
+            comp = 'sub%d-%d-' % (a, lvl) + unit * 120
+            while len(comp.encode('utf-8')) > 240:
+                comp = comp[:-1]
+            d = d + '/' + comp
+            L.add({'p': d, 't': 'd', 'm': 0o755})
     if name is None:
         for _ in range(20):
             name = gen.hostile_name(rng, **(name_kw or {}))
